@@ -60,7 +60,9 @@ def handle (line : String) : String :=
         -- `&str` must have the UTF-8 shape (the harness answers `utf8=1`); `m.authmb` = the excluded base shape
         kvB "utf8" (utf8Shaped 0 b && utf8Shaped 0 i), kvB "m.authmb" (authEndsMultibyteNoPath b),
         -- the input-side region of `rel_path_input_partial`: there the theorem promises a reference (`o.some`)
-        kvB "m.inpath" (pathInputCase b n i)] ++ (if pathInputCase b n i then [kv "o.some" "1"] else [])
+        kvB "m.inpath" (pathInputCase b n i), kvB "m.inreg" (inputCase b n i)] ++
+        -- `rel_input_partial` promises a reference on the whole input-side region
+        (if inputCase b n i && !sameDoc b i then [kv "o.some" "1"] else [])
       match relativize (Relativize.new b n) i with
       | .panic => reply ([kv "rel" "panic", kv "pk" "boundary", kv "o.nopanic" "1"] ++ same)
       | .none => reply ([kv "rel" "none", kv "o.nopanic" "1"] ++ same)
